@@ -14,6 +14,7 @@ import Mqtt.V5.Encode
 import Mqtt.V5.Decode
 import Mqtt.V5.Poll
 import Mqtt.V5.Text
+import Mqtt.IO
 
 namespace Mqtt.Driver
 open Mqtt
@@ -284,6 +285,39 @@ def v5Valid (debug : Bool) (toks : List String) : String :=
   | .unconstructible w => s!"unconstructible {w}"
   | .syntax => "bad-op"
 
+def parseSink (s : String) : Option (List IO.SinkItem) :=
+  if s = "-" then some [] else
+  (s.splitOn ",").mapM fun it =>
+    if it = "p" then some IO.SinkItem.pending
+    else if it = "z" then some IO.SinkItem.zero
+    else if it.startsWith "a" then (it.drop 1).toString.toNat?.map IO.SinkItem.accept
+    else if it.startsWith "e:" then (IoKind.ofName? (it.drop 2).toString).map IO.SinkItem.err
+    else none
+
+def showWriteOut : IO.AsyncEncOut → String
+  | .encodeErr e => s!"encode-err {e.show}"
+  | .panic s => s!"panic[{s}]"
+  | .wrote o =>
+    let r := match o.result with
+      | .ok () => "ok"
+      | .error k => s!"err {k.name}"
+    s!"{r} written={hexOrDash o.written} pend={o.pendings}"
+
+def opEnca (debug : Bool) (fam sink : String) (toks : List String) : String :=
+  match parseSink sink with
+  | none => "bad-op"
+  | some sc =>
+    if fam = "v3" then
+      match V3.parsePacket toks with
+      | .ok p => showWriteOut (IO.v3EncodeAsync debug p sc)
+      | .unconstructible w => s!"unconstructible {w}"
+      | .syntax => "bad-op"
+    else
+      match V5.parsePacket toks with
+      | .ok p => showWriteOut (IO.v5EncodeAsync debug p sc)
+      | .unconstructible w => s!"unconstructible {w}"
+      | .syntax => "bad-op"
+
 def withHex (h : String) (f : Bytes → String) : String :=
   match bytesOfHex h with
   | some bs => f bs
@@ -312,6 +346,7 @@ def stepRaw (debug : Bool) (line : String) : String :=
     | some sc, some t => withHex h fun bs => v3Poll debug bs sc t
     | _, _ => "bad-op"
   | ["cwp", "v3", p, h] => withHex h (v3Cwp p)
+  | "enca" :: fam :: sink :: toks => opEnca debug fam sink toks
   | "valid" :: "v3" :: toks => v3Valid debug toks
   | "valid" :: "v5" :: toks => v5Valid debug toks
   | ["dec", "v5", h] => withHex h (v5Dec debug)
